@@ -11,7 +11,7 @@ VERIF = os.path.dirname(os.path.dirname(os.path.abspath(__file__)))
 SUB = os.environ.get("MATRIX_DIR", "seeded")  # "seeded" (property-breaking changes) or "harmless" (behaviour-preserving refactorings)
 ids = sorted(d for d in os.listdir(os.path.join(VERIF, SUB)) if os.path.isfile(os.path.join(VERIF, SUB, d, "patch.diff")))
 checks = os.environ.get("MATRIX_CHECKS", "").split() or [f"C{i:02d}" for i in range(1, 21)]  # MATRIX_CHECKS="C03 C06": only those (rows are merged)
-ROOT = "/tmp/mx"
+ROOT = os.environ.get("MATRIX_ROOT", "/tmp/mx")
 os.makedirs(ROOT, exist_ok=True)
 
 
